@@ -37,7 +37,7 @@ ASSUMPTIONS = ['a forwarding rule that rewrites a recipient to the empty '
                'string is skipped (documented behaviour of Forward.apply)']
 CELL_BUDGET_S = {'quick': 240, 'thorough': 2400}
 SAMPLE_P = 0.02
-MAX_WITNESSES = 6
+MAX_WITNESSES = 10
 ALPHA = [0x40, 0x2e, 0x61, 0x41, 0x62, 0x42, 0x31]
 
 MENU = [
